@@ -47,6 +47,10 @@ func fnClientUnblock(ctx *cmdContext, args map[string]any) (output respValue, er
 	defer clientsMu.Unlock()
 
 	client, exists := clients[id]
+	if exists && client.disp != ctx.cd {
+		// the client table is shared by all emulators of the process; a client of another emulator is not ours
+		exists = false
+	}
 	if exists {
 		reason := ""
 		if isError {
@@ -160,6 +164,9 @@ func fnClientKill(ctx *cmdContext, args map[string]any) (output respValue, err e
 	}
 
 	processAllClients(func(id int64, cs *clientState) {
+		if cs.disp != ctx.cd {
+			return // a client of another emulator in this process
+		}
 		shouldClose := cs.client.MatchFilter(filter)
 
 		if shouldClose {
@@ -228,6 +235,9 @@ func fnClientList(ctx *cmdContext, args map[string]any) (output respValue, err e
 	var list strings.Builder
 
 	processAllClients(func(id int64, cs *clientState) {
+		if cs.disp != ctx.cd {
+			return // a client of another emulator in this process
+		}
 		included := true
 		if len(ids) > 0 {
 			_, included = ids[cs.id]
